@@ -87,6 +87,8 @@ def run_obligation(o, tier, seed):
             res["detail"] = "%s after %ss (%d paths): %s" % (v, o.timeout, m["paths"], m["messages"][:1])
         return res
     # JOB
+    if tier == "thorough":
+        env.setdefault("VERIF_XCHECK_EVERY", "20")        # every 20th final query is re-decided by cvc5 and the old z3
     cmd = [PY, "-m", "engine.job", "--module", o.module, "--func", o.func, "--tier", tier, "--seed", str(seed)]
     rc, out, err, wall = sub(cmd, o.timeout, env)
     r = tagged(out, "@@RESULT@@")
